@@ -25,11 +25,30 @@
 (*     "eol"    : '^...$' - '$' also matches before one final line          *)
 (*                terminator (the tree as read)                              *)
 (*     "prefix" : the guard only looks at the beginning of the text          *)
+(*   echo  : which characters _cim_xml accepts in an attribute value of the  *)
+(*           response (MESSAGE/@ID and EXPMETHODRESPONSE/@NAME are echoed    *)
+(*           from the request):                                              *)
+(*     "xml10"      : every character of the XML 1.0 Char production (the    *)
+(*                    tree as read)                                          *)
+(*     "restricted" : DEL and the C1 controls refused (ValueError in         *)
+(*                    setAttribute, raised in the handler after the          *)
+(*                    indication was queued)                                 *)
+(*   pname : how do_POST finds the NewIndication parameter:                  *)
+(*     "exact"   : check and fetch with the exact name (the tree as read)    *)
+(*     "cicheck" : the check compares case-insensitively, the fetch is       *)
+(*                 params['NewIndication']: KeyError for NEWINDICATION       *)
+(*   deep  : RecursionError of the reader (reference keys / embedded         *)
+(*           instances nested some hundred levels deep; the tuple parser     *)
+(*           recurses over the elements):                                    *)
+(*     "leaks"  : not caught in do_POST (the tree as read)                   *)
+(*     "caught" : answered 400 request-not-well-formed                       *)
 (***************************************************************************)
 EXTENDS ListenerHttpReq
 
-Legacy == [san |-> FALSE, clchk |-> FALSE, qfret |-> TRUE, lexg |-> "eol"]
-Fixed  == [san |-> TRUE,  clchk |-> TRUE,  qfret |-> TRUE, lexg |-> "full"]
+Legacy == [san |-> FALSE, clchk |-> FALSE, qfret |-> TRUE, lexg |-> "eol",
+           echo |-> "xml10", pname |-> "exact", deep |-> "leaks"]
+Fixed  == [san |-> TRUE,  clchk |-> TRUE,  qfret |-> TRUE, lexg |-> "full",
+           echo |-> "xml10", pname |-> "exact", deep |-> "caught"]
 
 Blank == [outcome |-> "closed", nresp |-> 0, status |-> 0, lineok |-> FALSE,
           hdrsyn |-> FALSE, framing |-> FALSE, rawnl |-> FALSE,
@@ -119,10 +138,16 @@ LexAccepted ==
        [] p = "arraySize" -> {"negative", "huge", "padded", "underscore",
                               "uniDigits", "zero"}
        [] p \in {"embAttr", "embAttrNum"} -> {"empty"}  \* falsy: not embedded
+       \* strings that are not converted: any character is taken
+       [] p \in {"msgId", "methName", "paramName"} -> LexAt[p]
+       \* header values that do_POST lower-cases before it compares them
+       [] p \in {"charsetVal", "ctypeVal", "cencVal"} -> LexAt[p]
+       [] p \in {"embDepth", "refDepth"} -> {"few", "tens"}
        [] OTHER -> {}]
 
 TupleParse(p, x, g) ==
-  IF p \in TypeWithValue /\ NumTypeGuardPasses(x, g) THEN "ValueError"
+  IF p = "refDepth" /\ x \in {"hundreds", "thousands"} THEN "RecursionError"
+  ELSE IF p \in TypeWithValue /\ NumTypeGuardPasses(x, g) THEN "ValueError"
   ELSE IF p \in NumericPositions /\ HexGuardPasses(x, g) /\ x = "hexSuffix"
        THEN "ValueError"
   ELSE IF x \in LexAccepted[p] THEN "none"
@@ -138,14 +163,29 @@ MappedExc == {"CIMXMLParseError", "XMLParseError"}
 (* parse_export_request and what follows, on the body bytes actually seen  *)
 (* QueueFull: listener._handle_indication raised queue.Full                *)
 (* lp, lx: position and class of the lexeme in the body ("none": no such)  *)
-AfterParse(fl, QueueFull) ==
+(* the export response echoes MESSAGE/@ID and the method name; a            *)
+(* setAttribute that refuses the character raises in the handler           *)
+EchoRaises(lp, lx, fl) ==
+  fl.echo = "restricted" /\ lp \in {"msgId", "methName"} /\ lx \in {"del", "c1"}
+
+AfterParse(lp, lx, fl, QueueFull) ==
          \* params is a dict: a repeated NewIndication collapses to the last
-         IF QueueFull
-         THEN IF fl.qfret THEN Export200(<<"ERROR">>, FALSE)     \* code 1
+         IF lp = "methName"      \* literal comparison with 'ExportIndication'
+         THEN IF EchoRaises(lp, lx, fl) THEN Dropped
+              ELSE Export200(<<"ERROR">>, FALSE)                  \* code 7
+         ELSE IF lp = "paramName"
+         THEN IF fl.pname = "exact" THEN Export200(<<"ERROR">>, FALSE) \* 4
+              ELSE Dropped       \* params['NewIndication']: KeyError
+         ELSE IF QueueFull
+         THEN IF EchoRaises(lp, lx, fl) THEN Dropped
+              ELSE IF fl.qfret THEN Export200(<<"ERROR">>, FALSE)     \* code 1
               ELSE \* the ERROR response, then the success response: what a
                    \* reader of the connection sees is the first one
                    \* followed by a second status line; nothing was queued
                    [Export200(<<"ERROR">>, FALSE) EXCEPT !.nresp = 2]
+         \* the indication is queued (and will be delivered), then the
+         \* success response is built
+         ELSE IF EchoRaises(lp, lx, fl) THEN [Dropped EXCEPT !.ndeliv = 1]
          ELSE Export200(<< >>, TRUE)
 
 AfterRead(seen, lp, lx, fl, QueueFull) ==
@@ -157,21 +197,27 @@ AfterRead(seen, lp, lx, fl, QueueFull) ==
          HttpError(400, TRUE, "nl", FALSE, fl)
     [] seen \in {"wrongDtdVersion", "wrongProtocolVersion",
                  "wrongCimVersion"} ->
-         HttpError(400, TRUE, "plain", FALSE, fl)
+         HttpError(400, TRUE,
+                   IF lx \in {"bmp", "lsep", "fffd", "nonchar", "astral"}
+                   THEN "nonlatin" ELSE "plain", FALSE, fl)
     [] seen \in {"wrongDtdVersionU", "wrongProtocolVersionU",
                  "wrongCimVersionU"} ->
          HttpError(400, TRUE, "nonlatin", FALSE, fl)
-    [] seen = "unknownMethod" -> Export200(<<"ERROR">>, FALSE)   \* code 7
+    [] seen = "unknownMethod" ->
+         IF EchoRaises(lp, lx, fl) THEN Dropped
+         ELSE Export200(<<"ERROR">>, FALSE)                       \* code 7
     [] seen \in {"missingParam", "nullParam"} ->
          Export200(<<"ERROR">>, FALSE)                            \* code 4
     [] seen \in {"validExport", "dupParam", "lexeme"} ->
          LET exc == IF lp = "none" THEN "none"
                     ELSE TupleParse(lp, lx, fl.lexg) IN
-         IF exc = "none" THEN AfterParse(fl, QueueFull)
+         IF exc = "none" THEN AfterParse(lp, lx, fl, QueueFull)
          ELSE IF exc \in MappedExc
               \* the message quotes the lexeme and ends in
               \* "\nCIM-XML response: None"
               THEN HttpError(400, TRUE, "nl", FALSE, fl)
+         ELSE IF exc = "RecursionError" /\ fl.deep = "caught"
+              THEN HttpError(400, TRUE, "plain", FALSE, fl)
          ELSE Dropped   \* handler thread dies, nothing was written
 
 (* what rfile.read(content_len) hands to the parser                        *)
@@ -186,6 +232,8 @@ Pipeline(c, fl, QueueFull) ==
   ELSE IF c.verb = "known" THEN HttpError(405, FALSE, "none", TRUE, fl)
   ELSE IF c.accept \in {"bad", "fold"}
        THEN HttpError(406, TRUE, HdrDet(c.accept), FALSE, fl)
+  ELSE IF c.lpos = "acceptVal"   \* `accept not in (...)`: literal comparison
+       THEN HttpError(406, TRUE, "plain", FALSE, fl)
   ELSE IF c.charset \in {"bad", "fold"}
        THEN HttpError(406, TRUE, HdrDet(c.charset), FALSE, fl)
   ELSE IF c.range # "absent"
